@@ -14,7 +14,7 @@ func init() {
 		ID:    "C02",
 		Level: "model_checking",
 		Rule: "universe = (F1 kinds) 6 pattern templates (call args k=2,3; binary; selector X.h / h.Sel; func name; type/field names) x every assignment of their holes to {expression metavariables x,y; identifier metavariables n,m; undeclared name q} (so every variable occurs 1..3 times) x every filling of the candidate from a filler catalogue (equal, almost-equal `a` vs `(a)` / `a.b` vs `a.b()`, different, identifiers spelled like the metavariables); " +
-			"(F2 leakage) patterns f(x,x), f(x,y,x), n(n), lock(x);unlock(x) x all sequences (length<=3, statements <=5) of matching / failing-after-binding / differently-bound / enclosing candidates; (F3 scoping) two-change patches where a later change uses a name only an earlier change declared. " +
+			"(F2 leakage) patterns f(x,x), f(x,y,x), n(n), lock(x);unlock(x), open(x);...;mark();...;close(x) and f(x, ..., 0, ..., x) (two elisions between the occurrences) x all sequences (length<=3, statements <=5) of matching / failing-after-binding / differently-bound / enclosing candidates; (F3 scoping) two-change patches where a later change uses a name only an earlier change declared. " +
 			"The model binds per attempt from scratch. non-trivial = the model finds at least one instance",
 		Bounds:  func(tier string) map[string]any { return map[string]any{"k": 3, "seq_len": c02SeqLen(tier)} },
 		NewCase: func() any { return &SCase{} },
@@ -179,6 +179,25 @@ func c02Gen(tier string, emit func(any)) {
 			file := "package p\n\nfunc _() {\n\t" + strings.Join(seq, "\n\t") + "\n}\n"
 			emit(&SCase{Changes: []*model.Change{ch}, File: file, Tag: "F2-leak-stmts/" + ch.Lines[0].Text + ch.Lines[1].Text})
 		}
+	}
+	// two elisions with a metavariable bound before the first and reused after the second: an attempt that
+	// fails with one binding must not block the attempt with another (memoised failures, stale bindings)
+	openPats := []*model.Change{
+		{Kind: "stmts", Meta: exprMeta[:1], Lines: model.L("-open(x)", " DOTS_1", " mark()", " DOTS_2", "-close(x)", "+closeLater(x)")},
+		{Kind: "expr", Meta: exprMeta[:1], Lines: model.L("-f(x, DOTS_1, 0, DOTS_2, x)", "+mark(x)")},
+	}
+	ostmts := []string{"open(a)", "open(b)", "mark()", "close(a)", "close(b)", "other()"}
+	for _, sq := range seqs(ostmts, n) {
+		if len(sq) < 3 {
+			continue
+		}
+		emit(&SCase{Changes: []*model.Change{openPats[0]}, File: "package p\n\nfunc _() {\n\t" + strings.Join(sq, "\n\t") + "\n}\n", Tag: "F2-leak-two-elisions/stmts"})
+	}
+	for _, sq := range seqs([]string{"a", "b", "0", "c"}, n+1) {
+		if len(sq) < 3 {
+			continue
+		}
+		emit(&SCase{Changes: []*model.Change{openPats[1]}, File: "package p\n\nvar _ = f(" + strings.Join(sq, ", ") + ")\n", Tag: "F2-leak-two-elisions/args"})
 	}
 	// F3: a name is a metavariable only in the change that declares it
 	decl := func(vars ...string) []model.MetaVar { return c02Meta(vars) }
